@@ -14,6 +14,7 @@
 package vs
 
 import (
+	"syscall"
 	"fmt"
 	"os"
 	"runtime"
@@ -164,6 +165,7 @@ type Outcome struct {
 	Deadlock   string // non-empty: description of the deadlock state
 	Panic      string // non-empty: product panic (value + stack)
 	StepCap    bool
+	StepCapMsg string // threads still alive when the step cap was hit
 	Cut        bool // execution abandoned because the state was already expanded
 	InvFail    string
 	Trace      []string
@@ -541,37 +543,91 @@ var wdSteps atomic.Int64
 var wdActive atomic.Bool
 var wdInfo atomic.Value
 
+// Runaway describes a product thread that consumes CPU (or memory) without
+// ever reaching a scheduling point: an unbounded loop in the code under test.
+type Runaway struct {
+	Thread     string  `json:"thread"`
+	Choices    []int   `json:"choices"`
+	CPUSeconds float64 `json:"cpu_seconds"`
+	MemMB      uint64  `json:"mem_mb"`
+}
+
+// OnRunaway, when set, receives the runaway report (the process cannot
+// continue: the handler must exit). Without a handler a runaway is a harness error.
+var OnRunaway func(r Runaway)
+
+func procCPU() float64 {
+	var ru syscall.Rusage
+	if syscall.Getrusage(syscall.RUSAGE_SELF, &ru) != nil {
+		return 0
+	}
+	return float64(ru.Utime.Sec+ru.Stime.Sec) + float64(ru.Utime.Usec+ru.Stime.Usec)/1e6
+}
+
+// RunawayCPUSeconds is the CPU time one thread may consume between two
+// scheduling points before it is declared a runaway (real steps take micro- to
+// milliseconds; CPU time, unlike wall time, does not depend on machine load).
+var RunawayCPUSeconds = 30.0
+
 func startWatchdog() {
 	watchdogOnce.Do(func() {
 		go func() {
 			last := int64(-1)
 			stuck := 0
+			cpuAtChange := procCPU()
+			runaway := func(cpu float64, mem uint64) {
+				r := Runaway{Thread: fmt.Sprint(wdInfo.Load()), CPUSeconds: cpu, MemMB: mem}
+				if c := current; c != nil && c.out != nil {
+					// the scheduler goroutine is parked (no step is being taken), so Points is stable
+					for _, p := range c.out.Points {
+						r.Choices = append(r.Choices, p.Chosen)
+					}
+					if c.cur != nil {
+						r.Thread = c.cur.Label + " " + c.cur.Path
+					}
+				}
+				if OnRunaway != nil {
+					OnRunaway(r)
+				}
+				fmt.Fprintf(os.Stderr, "HARNESS-ERROR: watchdog: thread %s used %.0f CPU-seconds / %d MB without reaching a scheduling point\n", r.Thread, cpu, mem)
+				os.Exit(2)
+			}
 			for {
 				time.Sleep(2 * time.Second)
 				if !wdActive.Load() {
 					stuck = 0
+					last = -1
 					continue
 				}
 				var ms runtime.MemStats
 				runtime.ReadMemStats(&ms)
-				if ms.Sys > 12<<30 {
+				n := wdSteps.Load()
+				if n != last {
+					stuck = 0
+					last = n
+					cpuAtChange = procCPU()
+					if ms.Sys > 12<<30 {
+						fmt.Fprintf(os.Stderr, "HARNESS-ERROR: memory guard: this worker uses %d MB\n", ms.Sys>>20)
+						os.Exit(2)
+					}
+					continue
+				}
+				stuck++
+				cpu := procCPU() - cpuAtChange
+				if cpu >= RunawayCPUSeconds || (ms.Sys > 12<<30 && cpu >= 1.5) {
+					runaway(cpu, ms.Sys>>20)
+				}
+				if (stuck >= 20 && cpu < 2) || stuck >= 300 {
+					fmt.Fprintf(os.Stderr, "HARNESS-ERROR: watchdog: no scheduling step for %ds and no CPU use (unmodelled blocking call?) %v\n", 2*stuck, wdInfo.Load())
+					buf := make([]byte, 1<<20)
+					n := runtime.Stack(buf, true)
+					os.Stderr.Write(buf[:n])
+					os.Exit(2)
+				}
+				if ms.Sys > 14<<30 {
 					fmt.Fprintf(os.Stderr, "HARNESS-ERROR: memory guard: this worker uses %d MB\n", ms.Sys>>20)
 					os.Exit(2)
 				}
-				n := wdSteps.Load()
-				if n == last {
-					stuck++
-					if stuck >= 20 {
-						fmt.Fprintf(os.Stderr, "HARNESS-ERROR: watchdog: no scheduling step for 40s (unmodelled blocking call?) %v\n", wdInfo.Load())
-						buf := make([]byte, 1<<20)
-						n := runtime.Stack(buf, true)
-						os.Stderr.Write(buf[:n])
-						os.Exit(2)
-					}
-				} else {
-					stuck = 0
-				}
-				last = n
 			}
 		}()
 	})
@@ -642,8 +698,23 @@ func (s *Sched) loop() {
 	for {
 		s.steps++
 		wdSteps.Add(1)
+		if s.tracing && s.steps > 3000 {
+			// a run this long is a livelock being confirmed: its first 3000 steps describe it
+			s.tracing = false
+			s.out.Trace = append(s.out.Trace, "... (trace stops after 3000 steps)")
+		}
 		if int(s.steps) > s.MaxSteps {
 			s.out.StepCap = true
+			var parts []string
+			for _, t := range s.threads {
+				if !t.done {
+					parts = append(parts, s.describe(t))
+				}
+			}
+			if len(parts) > 12 {
+				parts = append(parts[:12], fmt.Sprintf("... and %d more threads", len(parts)-12))
+			}
+			s.out.StepCapMsg = strings.Join(parts, " | ")
 			return
 		}
 		if s.out.Panic != "" {
